@@ -57,6 +57,19 @@ theorem and_not7_ofNat (a : Nat) (ha : a < 2^63) :
   rw [BitVec.toNat_and, h7, toNat_ofNat64 a ha]
   exact land_mask8 a (by omega)
 
+/-- the same prefix length spelled `n - n&7` -/
+theorem sub_and7_ofNat (a : Nat) (ha : a < 2^63) :
+    (BitVec.ofNat 64 a - (BitVec.ofNat 64 a &&& 7#64)) = BitVec.ofNat 64 (a - a % 8) := by
+  apply BitVec.eq_of_toNat_eq
+  have h1 : (BitVec.ofNat 64 a).toNat = a := by simp; omega
+  have h7 : (BitVec.ofNat 64 a &&& 7#64).toNat = a % 8 := by
+    rw [BitVec.toNat_and, h1]
+    have : (7#64 : BitVec 64).toNat = 2^3 - 1 := by decide
+    rw [this, Nat.and_two_pow_sub_one_eq_mod]
+  rw [BitVec.toNat_sub, h1, h7]
+  have h2 : (BitVec.ofNat 64 (a - a % 8)).toNat = a - a % 8 := by simp; omega
+  rw [h2]; omega
+
 theorem srem8_ofNat (a : Nat) (ha : a < 2^63) :
     BitVec.srem (BitVec.ofNat 64 a) 8#64 = BitVec.ofNat 64 (a % 8) := by
   apply BitVec.eq_of_toInt_eq
@@ -206,7 +219,10 @@ theorem search_spec (e : Env) (xs : Words) (k : BitVec 64) (heven : xs.size % 2 
     (hs : xs.size / 2 < 2 ^ 15) (hcap : xs.size ≤ e.cap.toNat) :
     ∃ j, search e xs k = some (BitVec.ofNat 16 j) ∧ IsFirst (at! xs) (xs.size / 2) k j := by
   have hN : wrapN xs = BitVec.ofNat 64 (xs.size - xs.size % 8) := by
-    unfold wrapN; exact and_not7_ofNat xs.size (by omega)
+    unfold wrapN
+    first
+      | exact and_not7_ofNat xs.size (by omega)
+      | exact sub_and7_ofNat xs.size (by omega)
   have hpre : wrapHasPrefix (BitVec.ofNat 64 (xs.size - xs.size % 8)) = decide (0 < xs.size - xs.size % 8) := by
     unfold wrapHasPrefix
     rw [show (0#64 : BitVec 64) = BitVec.ofNat 64 0 from rfl, slt_ofNat _ _ (by omega) (by omega)]
